@@ -18,6 +18,8 @@ def run(chk):
                  extra_invs=("DispatchOK",))
     c04.instance(chk, "panic-long", "odd", 20, 22 if not thorough else 40, ["P", "NP", "WP"], base="N", only=PAN, hooks=("none", "statusbody"),
                  extra_invs=("DispatchOK",))
+    # a panic below handlers.Timeout: its deferred WriteHeader(504) runs while the panic unwinds, then the hook
+    c04.library(chk, PAN, maxn=3 if thorough else 2, extra=("N", "P", "WP", "PH"), hooks=HOOKS)
     chk.exhaustive = True
     c04.recorded(chk, 2000 if thorough else 300, PAN)
     r = core.run_tlc("MC_Chain", cfg_text=c04.ccfg("all", 1, 2, ["N", "P"], emit=False, invs=("DispatchOK",), hooks=("status",),
